@@ -5,6 +5,7 @@
 // seeds in every build configuration). Templated on index class and key type.
 #pragma once
 
+#include <functional>
 #include <map>
 #include <memory>
 #include <optional>
@@ -273,7 +274,7 @@ struct Runner {
 
   // Run `f` with the k-th allocation failing, for k = 1, 2, ... until it completes. Returns what the un-faulted run returned.
   template <class F>
-  bool enumerate_faults(const std::string& what, bool count_new, F&& f, bool content = true) {
+  bool enumerate_faults(const std::string& what, bool count_new, F&& f, bool content = true, const std::function<void(int)>& after_fail = nullptr) {
     for (int k = 1; k < 64; k++) {
       const Snapshot before = snapshot();
       out.fault_points++;
@@ -293,6 +294,7 @@ struct Runner {
         if (!fired) die("fault-wrong-exception", what + ": std::bad_alloc without an injected fault");
         out.faults_delivered++;
         verify_unchanged(before, what + " with allocation #" + std::to_string(k) + " failing", content);
+        if (after_fail) after_fail(k);
         continue;
       }
       if (fired) die("fault-swallowed", what + ": allocation #" + std::to_string(k) + " failed but no exception reached the caller");
@@ -436,7 +438,10 @@ struct Runner {
             enumerate_faults("qsbr_resume " + opname(g, o), true, [&] {
               unodb::this_thread().qsbr_resume();
               return true;
-            }, false);
+            }, false, [&](int k) {
+              if (!unodb::this_thread().is_qsbr_paused())
+                die("fault-qsbr-changed", "qsbr_resume with allocation #" + std::to_string(k) + " failing threw, but the thread no longer reports itself paused");
+            });
             if (!unodb::this_thread().is_qsbr_paused()) verify_unchanged(snap, "pause + (faulted) resume");
           } else {
             unodb::this_thread().qsbr_pause();
@@ -570,48 +575,85 @@ struct Runner {
         });
         (void)started;
       }
-      // deferred deallocation request with a second thread registered (so the request is queued)
+      // deferred deallocation requests with a second thread registered (so that requests are queued), reached through a
+      // seeded mini-program of {request, own quiescent state, quiescent state of the other thread}: the faulted request then
+      // meets every combination of "requests pending from the previous / the current interval" and "the other thread has
+      // changed the epoch since this thread's last QSBR call". The other thread is a real thread that only moves when told to.
       {
-        std::atomic<int> stage{0};
+        std::atomic<int> cmd{0}, ack{0};
         unodb::qsbr_thread other([&] {
-          while (stage.load() == 0) std::this_thread::yield();
+          int seen = 0;
+          while (true) {
+            int cur;
+            while ((cur = cmd.load(std::memory_order_acquire)) == seen) std::this_thread::yield();
+            seen = cur;
+            if (cur < 0) break;
+            unodb::this_thread().quiescent();
+            ack.store(cur, std::memory_order_release);
+          }
         });
-        void* p = unodb::detail::allocate_aligned(32);
-        const Snapshot before = snapshot();
-        bool queued = false;
-        for (int k = 1; k < 16 && !queued; k++) {
-          out.fault_points++;
-          arm_alloc_fault(k, true);
-          bool threw = false;
-          try {
-            me.on_next_epoch_deallocate(p
+        int ncmd = 0;
+        auto other_quiescent = [&] { cmd.store(++ncmd, std::memory_order_release); while (ack.load(std::memory_order_acquire) != ncmd) std::this_thread::yield(); };
+        auto request = [&](void* p) {
+          me.on_next_epoch_deallocate(p
 #ifdef UNODB_DETAIL_WITH_STATS
-                                        , 32
+                                      , 32
 #endif
 #ifndef NDEBUG
-                                        , {}
+                                      , {}
 #endif
-            );
-          } catch (const std::bad_alloc&) {
-            threw = true;
+          );
+        };
+        Rng qr = stream(c->seed, S_FAULT + 7);
+        const int rounds = static_cast<int>(qr.range(1, 3));
+        for (int round = 0; round < rounds; round++) {
+          const int steps = static_cast<int>(qr.range(0, 7));
+          for (int i = 0; i < steps; i++) {
+            const auto x = qr.below(100);
+            if (x < 40) request(unodb::detail::allocate_aligned(32));
+            else if (x < 70) me.quiescent();
+            else other_quiescent();
           }
-          const bool fired = alloc_fault_fired();
-          disarm_alloc_fault();
-          if (threw) {
-            out.faults_delivered++;
-            const Snapshot now = snapshot();
-            if (!(now.led == before.led)) die("fault-allocations-changed", "on_next_epoch_deallocate with allocation #" + std::to_string(k) + " failing changed the live allocations");
-            if (!me.current_interval_requests_empty() || !me.previous_interval_requests_empty())
-              die("fault-qsbr-changed", "on_next_epoch_deallocate threw but left a request queued");
-          } else {
-            if (fired) die("fault-swallowed", "on_next_epoch_deallocate: allocation failed but no exception reached the caller");
-            queued = true;
+          void* p = unodb::detail::allocate_aligned(32);
+          bool queued = false;
+          for (int k = 1; k < 16 && !queued; k++) {
+            const Snapshot before = snapshot();
+            const bool cur_empty = me.current_interval_requests_empty(), prev_empty = me.previous_interval_requests_empty();
+            out.fault_points++;
+            arm_alloc_fault(k, true);
+            bool threw = false;
+            try {
+              request(p);
+            } catch (const std::bad_alloc&) {
+              threw = true;
+            }
+            const bool fired = alloc_fault_fired();
+            disarm_alloc_fault();
+            if (threw) {
+              out.faults_delivered++;
+              const Snapshot now = snapshot();
+              if (!(now.led == before.led))
+                die("fault-allocations-changed", "on_next_epoch_deallocate with allocation #" + std::to_string(k) + " failing changed the live allocations (" + std::to_string(before.led.blocks.size()) + " -> " +
+                                                     std::to_string(now.led.blocks.size()) + " blocks): earlier requests were executed by the failed call");
+              if (me.current_interval_requests_empty() != cur_empty || me.previous_interval_requests_empty() != prev_empty)
+                die("fault-qsbr-changed", "on_next_epoch_deallocate threw but the thread's pending-request lists changed (current empty " + std::to_string(cur_empty) + " -> " +
+                                              std::to_string(me.current_interval_requests_empty()) + ", previous empty " + std::to_string(prev_empty) + " -> " + std::to_string(me.previous_interval_requests_empty()) + ")");
+              if (now.qsbr_prev_empty != before.qsbr_prev_empty || now.qsbr_cur_empty != before.qsbr_cur_empty || now.threads != before.threads)
+                die("fault-qsbr-changed", "on_next_epoch_deallocate threw but the global QSBR state changed");
+            } else {
+              if (fired) die("fault-swallowed", "on_next_epoch_deallocate: allocation failed but no exception reached the caller");
+              queued = true;
+            }
           }
         }
-        stage.store(1);
+        // drain: alternate quiescent states until nothing is pending, then let the other thread go
+        for (int i = 0; i < 4; i++) { me.quiescent(); other_quiescent(); }
+        cmd.store(-1, std::memory_order_release);
         other.join();
         me.quiescent();
         me.quiescent();
+        if (!me.current_interval_requests_empty() || !me.previous_interval_requests_empty())
+          die("fault-qsbr-changed", "requests still pending after the drain that follows the faulted deferred-deallocation requests");
       }
     }
   }
